@@ -216,7 +216,7 @@ func fieldTypeOf(t types.Type, name string) types.Type {
 	}
 	if s, ok := t.Underlying().(*types.Struct); ok {
 		for i := 0; i < s.NumFields(); i++ {
-			if s.Field(i).Name() == name {
+			if s.Field(i).Name() == name || canonFieldName(namedOf(t), s.Field(i).Name()) == name {
 				return s.Field(i).Type()
 			}
 		}
@@ -646,7 +646,7 @@ func (it *flagInterp) instr(fr *frame, st *astate, in ssa.Instruction) aval {
 		base := it.eval(fr, st, x.X)
 		if base.k == kStruct && base.obj != nil {
 			if st2, ok := x.X.Type().Underlying().(*types.Struct); ok && x.Field < st2.NumFields() {
-				v := it.load(base.obj, st2.Field(x.Field).Name(), x.Type())
+				v := it.load(base.obj, canonFieldName(namedOf(x.X.Type()), st2.Field(x.Field).Name()), x.Type())
 				v.src = nil
 				return v
 			}
